@@ -77,6 +77,41 @@ def spline_twins(chk, ks):
                             {'k': k, 'table': table})
 
 
+def from_groove_twins(chk, ks):
+    """a profile cut from a groove: requested by width, by filling or by height / gap, also with widths at and beyond the contour - the same request in
+    another unit gives the scaled profile or is rejected alike"""
+    from pyroll.core import Profile, CircularOvalGroove, BoxGroove, RoundGroove
+
+    def grooves(k):
+        return [('CircularOvalGroove', CircularOvalGroove(depth=8 * k, r1=6 * k, r2=40 * k)),
+                ('BoxGroove', BoxGroove(depth=52 * k, r1=15 * k, r2=18 * k, usable_width=185.29 * k, ground_width=157.62 * k)),
+                ('RoundGroove', RoundGroove(r1=1 * k, r2=12.5 * k, depth=11.5 * k))]
+
+    def describe(k):
+        out = []
+        for name, g in grooves(k):
+            for spec in ([('filling', f) for f in (0.4, 0.8, 1.0, 1.1, 1.5)]
+                         + [('width-of-contour', f) for f in (0.5, 0.9, 1.0, 1.005, 1.02, 1.2, 2.0)]):
+                kw = {'filling': spec[1]} if spec[0] == 'filling' else {'width': spec[1] * g.width}
+                for gap_kw in ({'gap': 2 * k}, {'height': 2 * g.depth + 3 * k}):
+                    try:
+                        p = Profile.from_groove(g, **kw, **gap_kw)
+                        out.append(((name, spec, sorted(gap_kw)), 'ok', [p.width, p.height], p.cross_section.area))
+                    except Exception as e:      # noqa
+                        out.append(((name, spec, sorted(gap_kw)), type(e).__name__, [], 0.0))
+        return out
+    base = describe(1.0)
+    for k in ks:
+        for (label, o1, l1, a1), (_, o2, l2, a2) in zip(base, describe(k)):
+            chk.cov['evaluations'] += 1
+            if o1 != o2:
+                return chk.fail('from-groove-scale', f"Profile.from_groove({label[0]}, {label[1][0]} {label[1][1]}, {label[2][0]} given): with every length multiplied by "
+                                f"{k} the outcome is {o2}, in the original units it is {o1}", {'k': k, 'case': str(label)})
+            if any(abs(x / k - y) > 1e-9 * max(l1) for x, y in zip(l2, l1)) or abs(a2 / k ** 2 - a1) > 1e-9 * max(a1, 1e-300):
+                return chk.fail('from-groove-scale', f"Profile.from_groove({label[0]}, {label[1][0]} {label[1][1]}, {label[2][0]} given) scaled by {k}: "
+                                f"{[x / k for x in l2]} vs {l1}", {'k': k, 'case': str(label)})
+
+
 def profile_twins(chk, ks):
     from pyroll.core import Profile
     makers = [
@@ -249,6 +284,7 @@ def run(chk):
     ks_seq = [1000.0, 39.37007874015748] if not chk.thorough else [1000.0, 100.0, 39.37007874015748, 3.28084, 0.001]
     groove_twins(chk, ks_geo)
     profile_twins(chk, ks_geo)
+    from_groove_twins(chk, ks_geo)
     n1 = sequence_twins(chk, ks_seq, three=False)
     n2 = sequence_twins(chk, ks_seq[:1], three=True)
     for base in (0.1, 0.03, 0.01, 10.0, 40.0):      # wire ... heavy sections: small products and large numbers in small units
